@@ -4,7 +4,7 @@
 int main(int argc, char **argv) {
     vf::opts o(argc, argv);
     vf::install_crash_handler();
-    RUN("publisher_history", 1, false, scn::publisher_history(o, R, o.cases));
+    RUN("publisher_history", 1, true, scn::publisher_history(o, R, o.cases));
     RUN("publisher_mt", o.threads, true, scn::publisher_mt(o, R, T, o.cases));
     RUN("publisher_two_publishers", o.threads, true, scn::publisher_two_publishers(o, R, T, o.cases / 2 + 1));
     return 0;
